@@ -45,6 +45,13 @@ func verifCheckOutcome(ref *verifRef, streamed []byte, srcErrored bool, off int,
 	} else {
 		vnd.Cover("failed")
 		c := status.Code(err)
+		if srcErrored {
+			// "source I/O errors are passed through": a read failure is not a verdict about the
+			// content. Only a stream that had ALREADY delivered more than the object's size may
+			// be rejected on its size instead.
+			vnd.Assert(err == verifIOError || len(streamed) > ref.n, "a source I/O error was replaced by another error although the stream had not exceeded the object's size (e.g. reported as a size mismatch)")
+			vnd.Assert(integ.invalid == 0 || len(streamed) > ref.n, "the integrity callback received a negative verdict because the source failed to deliver (an I/O error is not corruption)")
+		}
 		if srcErrored && err == verifIOError {
 			vnd.Cover("ioerror-passed-through")
 		} else if c == codes.InvalidArgument || c == codes.Internal {
